@@ -272,8 +272,9 @@ func extraSnippets() map[string]string {
 		// names of imports in unusual roles: parenthesised as a selector operand (parses, does not
 		// type-check), shadowed by a parameter, a local variable and a package-level declaration
 		"import-names": "package p\n\nimport (\n\t\"fmt\"\n\t\"net/url\"\n\t\"os\"\n\t\"strings\"\n)\n\ntype loc struct{ Host string }\n\nfunc host(url *loc) string { return url.Host }\n\nfunc f() {\n\t(fmt).Println(\"b\")\n\tfmt.Println((os).Args, url.PathEscape(\"x\"))\n\tstrings := loc{}\n\t_ = strings.Host\n\t{\n\t\tos := &strings\n\t\t_ = os.Host\n\t}\n}\n",
-		// an import block that gofmt would sort and prune: unsorted, one path twice
-		"unsorted-imports": "package p\n\nimport (\n\t\"os\"\n\t\"fmt\"\n\t\"os\"\n\t\"bytes\"\n)\n\nimport \"strings\"\n\nvar _ = fmt.Sprint(os.Args, bytes.MinRead, strings.ToUpper)\n",
+		// an import block that gofmt would sort (a path imported twice is left out: go/format drops
+		// the second spec only when it carries no comment, so prints with and without decorations differ by design)
+		"unsorted-imports": "package p\n\nimport (\n\t\"os\"\n\t\"fmt\"\n\t\"unicode\"\n\t\"bytes\"\n)\n\nimport \"strings\"\n\nvar _ = fmt.Sprint(os.Args, bytes.MinRead, strings.ToUpper, unicode.MaxRune)\n",
 		// package-level objects with names that are special elsewhere (a variable called init is
 		// declared in the file scope, a function called init is not; main, len and nil as ordinary names)
 		"scope-names": "package p\n\nvar init = 0\n\nconst zero, main = iota, 1\n\ntype len struct{ nil int }\n\nfunc get() int { return init + main }\n\nfunc init() {}\n\nfunc _() {}\n\nvar _ = get\n",
